@@ -1416,29 +1416,36 @@ def _replay_raw(raw):
     return key, nontriv, bad
 
 
-def _behaviours(chk, quick):
-    behs = []
+def _behaviours(chk, quick, pool):
+    """start the generation runs (one JVM each, side by side); returns a function that collects them"""
     # wide alphabet to depth 2, callback-focused alphabet (one parameter, all levels / behaviours) one level deeper
     # ... and one parameter x every error class name of the SECoP table in error_update / error_read / error_change
-    for cfg in (('Gen_ClientCache_quick.cfg', 'Gen_ClientCache_cb_quick.cfg', 'Gen_ClientCache_err.cfg') if quick else
-                ('Gen_ClientCache_thorough.cfg', 'Gen_ClientCache_cb_thorough.cfg', 'Gen_ClientCache_err.cfg')):
-        r = run_tlc('Gen_ClientCache', cfg, workers=1, timeout=1200)
-        if r.violated or not r.ok:
-            raise MachineryError('behaviour emission Gen_ClientCache/%s failed: %s\n%s' % (cfg, r.violated or r.error, r.out[-1500:]))
-        chk.add_tlc(r)
-        behs += _printed(r.out)
+    cfgs = (('Gen_ClientCache_quick.cfg', 'Gen_ClientCache_cb_quick.cfg', 'Gen_ClientCache_err.cfg') if quick else
+            ('Gen_ClientCache_thorough.cfg', 'Gen_ClientCache_cb_thorough.cfg', 'Gen_ClientCache_err.cfg'))
+    gens = [(cfg, pool.submit(run_tlc, 'Gen_ClientCache', cfg, workers=1, timeout=1200)) for cfg in cfgs]
     # deeper behaviours sampled by TLC's simulator from the same generation spec
     n, depth, scfg = (16, 10, 'Gen_ClientCache_sim_quick.cfg') if quick else (400, 14, 'Gen_ClientCache_sim_thorough.cfg')
-    rs = run_tlc('Gen_ClientCache', scfg, workers=1, timeout=900, simulate='num=%d' % n,
-                 depth=depth + 1, seed=chk.seed + 1, deadlock=False)
-    if rs.violated or rs.rc != 0:
-        raise MachineryError('simulation of Gen_ClientCache failed: %s\n%s' % (rs.violated or rs.error, rs.out[-1500:]))
-    sim = _printed(rs.out)
-    chk.notes['generated_behaviours'] = len(behs)
-    chk.notes['simulated_behaviours'] = len(sim)
-    if not behs or not sim:
-        raise MachineryError('no behaviours emitted')
-    return behs, sim
+    simrun = pool.submit(run_tlc, 'Gen_ClientCache', scfg, workers=1, timeout=900, simulate='num=%d' % n,
+                         depth=depth + 1, seed=chk.seed + 1, deadlock=False)
+
+    def collect():
+        behs = []
+        for cfg, fut in gens:
+            r = fut.result()
+            if r.violated or not r.ok:
+                raise MachineryError('behaviour emission Gen_ClientCache/%s failed: %s\n%s' % (cfg, r.violated or r.error, r.out[-1500:]))
+            chk.add_tlc(r)
+            behs += _printed(r.out)
+        rs = simrun.result()
+        if rs.violated or rs.rc != 0:
+            raise MachineryError('simulation of Gen_ClientCache failed: %s\n%s' % (rs.violated or rs.error, rs.out[-1500:]))
+        sim = _printed(rs.out)
+        chk.notes['generated_behaviours'] = len(behs)
+        chk.notes['simulated_behaviours'] = len(sim)
+        if not behs or not sim:
+            raise MachineryError('no behaviours emitted')
+        return behs, sim
+    return collect
 
 
 def run(chk):
@@ -1457,16 +1464,20 @@ def run(chk):
         nonlocal t0
         stage[name] = round(_time.time() - t0, 1)
         t0 = _time.time()
-    for m in ('ClientCache', 'Gen_ClientCache', 'Trace_ClientCache'):
-        sany(m)
-    lap('sany')
-    # 1 design check
-    # one worker: TLCGet("level") in the depth bound is only exact (and the run deterministic) without parallel workers
-    chk.add_tlc(model_check('ClientCache', 'MC_ClientCache_quick.cfg' if quick else 'MC_ClientCache_thorough.cfg', workers=1, timeout=1100))
-
-    lap('model_check')
-    # 2 spec -> code
-    behs, sim = _behaviours(chk, quick)
+    from concurrent.futures import ThreadPoolExecutor
+    with ThreadPoolExecutor(6) as pool:     # the JVMs run side by side (each TLC run has one worker)
+        list(pool.map(sany, ('ClientCache', 'Gen_ClientCache', 'Trace_ClientCache')))
+        lap('sany')
+        # 1 design check
+        # one worker: TLCGet("level") in the depth bound is only exact (and the run deterministic) without parallel workers
+        mc = pool.submit(model_check, 'ClientCache', 'MC_ClientCache_quick.cfg' if quick else 'MC_ClientCache_thorough.cfg',
+                         workers=1, timeout=1100)
+        # 2 spec -> code
+        collect = _behaviours(chk, quick, pool)
+        behs, sim = collect()
+        lap('generate')
+        chk.add_tlc(mc.result())
+        lap('model_check')
     lap('generate')
     allb = behs + sim
     res = pool_map(_replay_raw, allb)
